@@ -507,6 +507,48 @@ def Proj.adjacentT (tomb fixed : Bool) (p : Proj) (n : Nat) (d : Dir) : List Nat
 
 def Proj.numEdgesT (tomb : Bool) (p : Proj) : Nat := ((p.origin.edgesT tomb).filter p.alive).length
 
+/-! ### projection handles (nested projections)
+
+`ts.Projection(N, E)` and `projection.Projection(N, E)` return NEW views; `Clone()` then `Or` means the parent's sets are
+not touched. A handle is therefore an immutable value: the deletions accumulated along its derivation. The store is
+shared by reference, so every view follows later `AddTriple` / `DeleteEdge` on its origin. -/
+
+/-- `m[name] = v` on an association list -/
+def hset {α : Type} (hs : List (String × α)) (name : String) (v : α) : List (String × α) :=
+  (hs.filter (fun p => p.1 != name)) ++ [(name, v)]
+
+structure HState where
+  ts : TS := {}
+  handles : List (String × (List Nat × List Nat)) := []
+deriving Inhabited
+
+inductive HOp where
+  | build (o : Op)                                     -- AddNode / AddTriple on the store
+  | del (id : Nat)                                     -- DeleteEdge on the store
+  | fromStore (h : String) (dn de : List Nat)          -- h := ts.Projection(dn, de)
+  | derive (h parent : String) (dn de : List Nat)      -- h := parent.Projection(dn, de)
+
+def HState.step (s : HState) : HOp → HState
+  | .build o => { s with ts := s.ts.step o }
+  | .del id => { s with ts := s.ts.deleteEdge id }
+  | .fromStore h dn de => { s with handles := hset s.handles h (sofList dn, sofList de) }
+  | .derive h p dn de =>
+    match s.handles.lookup p with
+    | some pv => { s with handles := hset s.handles h (sunion pv.1 (sofList dn), sunion pv.2 (sofList de)) }
+    | none => s
+
+def HState.run (ops : List HOp) : HState := ops.foldl HState.step {}
+
+/-- the projection a handle denotes NOW -/
+def HState.view (s : HState) (h : String) : Option Proj :=
+  (s.handles.lookup h).map (fun v => { origin := s.ts, delNodes := v.1, delEdges := v.2 })
+
+/-- the name an op (re)binds, if any -/
+def HOp.binds : HOp → Option String
+  | .fromStore h _ _ => some h
+  | .derive h _ _ _ => some h
+  | _ => none
+
 /-! ### NumEdges / Degrees / Dimensions -/
 
 /-- `adjacencyMapDigraph.NumEdges` (hooks/C14-fix2.patch): the cardinalities of the outbound index summed — an
